@@ -8,127 +8,84 @@ code_to_spec : a driver runs the real code on generated histories and logs one
                event per public call; TLC validates the whole batch of traces
                against a Trace_*.tla that reuses the specification's actions."""
 import json
-import multiprocessing as mp
 import os
-import queue
+import subprocess
+import sys
 import threading
 
 from . import tlc
-from .common import MachineryError, scratch, seed
+from .common import VERIF, MachineryError, scratch, seed
 
-_W = {}
-
-
-def _init(replayer_path, opts):
-    import importlib
-
-    from .common import import_repo
-
-    mod_name, fn_name = replayer_path.split(":")
-    m = importlib.import_module(mod_name)
-    _W["fn"] = getattr(m, fn_name)
-    _W["ctx"] = m.make_context(import_repo())
-    _W["opts"] = frozenset(opts)
-
-
-def _work(chunk):
-    fn, ctx, opts = _W["fn"], _W["ctx"], _W["opts"]
-    n = 0
-    findings = []
-    kinds = {}
-    finals = set()
-    sample = None
-    for line in chunk:
-        try:
-            obj = tlc.parse_emit(line)
-        except Exception as exc:  # noqa
-            findings.append(("machinery", "unparsable-emission", {"err": str(exc), "line": line[:200]}, None))
-            continue
-        n += 1
-        try:
-            fs = fn(obj, ctx, opts)
-        except Exception as exc:  # noqa
-            import traceback
-
-            fs = [("machinery", "replayer-crashed", {"err": traceback.format_exc()[-800:]})]
-        if obj.get("h"):
-            a = obj["h"][-1].get("a", "?")
-            kinds[a] = kinds.get(a, 0) + 1
-        finals.add(hash(json.dumps(obj.get("st"), sort_keys=True)))
-        if sample is None and len(obj.get("h", [])) >= 3:
-            sample = obj
-        for f in fs:
-            if len(findings) < 50:
-                findings.append((f[0], f[1], f[2], obj))
-            else:
-                findings.append((f[0], f[1], None, None))
-    return n, findings, kinds, finals, sample
-
-
-def spec_to_code(report, module, cfg_text, replayer, opts=(), *, workers_tlc=8, workers_replay=8,
-                 timeout=3000, chunk=64, owners=None, heap="6g"):
+def spec_to_code(report, module, cfg_text, replayer, opts=(), *, workers_tlc=12, workers_replay=6,
+                 timeout=3000, owners=None, heap="6g"):
     """returns the TlcResult; findings are filed into the report.
-    owners: property ids whose clauses are verdicts of this check (others are notes)."""
-    q = queue.Queue(maxsize=512)
-    buf = []
+    owners: property ids whose clauses are verdicts of this check (others are notes).
+    Replay workers are separate interpreters started with subprocess (no fork of
+    this multi-threaded process), fed through pipes."""
+    env = dict(os.environ, PYTHONHASHSEED="0", PYTHONPATH=VERIF)
+    procs = [subprocess.Popen([sys.executable, "-m", "harness.worker", replayer, json.dumps(list(opts))],
+                              cwd=VERIF, env=env, stdin=subprocess.PIPE, stdout=subprocess.PIPE,
+                              text=True, bufsize=1 << 16)
+             for _ in range(workers_replay)]
+    lock = threading.Lock()
+    agg = {"total": 0, "finals": set(), "kinds": {}, "findings": [], "samples": []}
+
+    def collect(p):
+        for line in p.stdout:
+            r = json.loads(line)
+            with lock:
+                agg["total"] += r["n"]
+                agg["finals"].update(r["finals"])
+                for a, c in r["kinds"].items():
+                    agg["kinds"][a] = agg["kinds"].get(a, 0) + c
+                agg["findings"] += r["findings"]
+                if r["sample"] is not None and len(agg["samples"]) < 2:
+                    agg["samples"].append(r["sample"])
+
+    collectors = [threading.Thread(target=collect, args=(p,), daemon=True) for p in procs]
+    for c in collectors:
+        c.start()
+    turn = [0]
 
     def on_emit(line):
-        buf.append(line)
-        if len(buf) >= chunk:
-            q.put(list(buf))
-            buf.clear()
+        p = procs[turn[0] % len(procs)]
+        turn[0] += 1
+        p.stdin.write(line)
 
-    result = {}
-
-    def runner():
-        try:
-            result["res"] = tlc.run(module, None, cfg_text=cfg_text, workers=workers_tlc,
-                                    on_emit=on_emit, timeout=timeout, heap=heap)
-        except Exception as exc:  # noqa
-            result["exc"] = exc
-        finally:
-            if buf:
-                q.put(list(buf))
-            q.put(None)
-
-    th = threading.Thread(target=runner, daemon=True)
-    th.start()
-
-    def chunks():
-        while True:
-            c = q.get()
-            if c is None:
-                return
-            yield c
-
-    ctx = mp.get_context("fork")
-    total = 0
-    finals = set()
-    kinds = {}
-    with ctx.Pool(workers_replay, initializer=_init, initargs=(replayer, tuple(opts))) as pool:
-        for n, findings, k, fin, sample in pool.imap_unordered(_work, chunks()):
-            total += n
-            finals |= fin
-            for a, c in k.items():
-                kinds[a] = kinds.get(a, 0) + c
-            if sample is not None:
-                report.sample({"direction": "spec->code", "behaviour": sample["h"],
-                               "expected_final_state_keys": sorted(sample["st"].keys())}, cap=2)
-            for owner, clause, detail, obj in findings:
-                file_finding(report, owner, clause, detail, obj, owners)
-    th.join()
-    if "exc" in result:
-        raise result["exc"]
-    res = result["res"]
+    try:
+        res = tlc.run(module, None, cfg_text=cfg_text, workers=workers_tlc, on_emit=on_emit,
+                      timeout=timeout, heap=heap)
+    finally:
+        for p in procs:
+            try:
+                p.stdin.close()
+            except Exception:  # noqa
+                pass
+        for c in collectors:
+            c.join(timeout=600)
+        for p in procs:
+            try:
+                p.wait(timeout=60)
+            except Exception:  # noqa
+                p.kill()
+    if any(p.returncode != 0 for p in procs):
+        raise MachineryError(f"a replay worker failed (exit codes {[p.returncode for p in procs]})")
+    for sample in agg["samples"]:
+        report.sample({"direction": "spec->code", "behaviour": sample["h"],
+                       "expected_final_state_keys": sorted(sample["st"].keys())}, cap=2)
+    for owner, clause, detail, obj in agg["findings"]:
+        file_finding(report, owner, clause, detail, obj, owners)
     report.add("states", res.distinct)
     report.add("transitions", res.generated)
-    report.add("behaviours_replayed", total)
-    report.add("distinct_final_states_replayed", len(finals))
+    report.add("behaviours_replayed", agg["total"])
+    report.add("distinct_final_states_replayed", len(agg["finals"]))
     acts = report.cov.setdefault("replayed_last_action_counts", {})
-    for a, c in kinds.items():
+    for a, c in agg["kinds"].items():
         acts[a] = acts.get(a, 0) + c
     tlc.require_clean(res, f"{module} exhaustive run")
-    if total == 0:
+    if agg["total"] != res.emitted:
+        raise MachineryError(f"{module}: {res.emitted} behaviours emitted but {agg['total']} replayed")
+    if agg["total"] == 0:
         raise MachineryError(f"{module}: TLC emitted no behaviour")
     return res
 
@@ -149,41 +106,67 @@ def file_finding(report, owner, clause, detail, obj, owners):
         report.note(f"clause of {owner} failed here ({clause}); judged by that property's own check")
 
 
-def code_to_spec(report, module, cfg, traces, *, timeout=3000, heap="6g", extra_defs=None,
-                 owners=None, describe=None):
-    """Validate a batch of recorded traces with TLC.  The trace spec prints
-    one line per failing clause: {"fail": [tid, step, clause]} and one
-    {"done": tid, "steps": n} per fully consumed trace."""
-    path = os.path.join(scratch(), f"traces_{module}_{len(traces)}_{id(traces) % 10000}.json")
-    with open(path, "w") as fh:
-        json.dump(traces, fh, separators=(",", ":"))
-    fails = []
-    done = {}
+def code_to_spec(report, module, cfg, traces, *, consts=None, timeout=3000, heap="2g",
+                 owners=None, describe=None, batches=16):
+    """Validate recorded traces with TLC, in parallel batches.  The trace spec
+    prints one line per failing clause: {"fail": [tid, step, clause]} and one
+    {"done": tid, "steps": n} per consumed trace.  consts = (module name, fn):
+    fn(batch) returns the text of a module of literal constants for the batch."""
+    from concurrent.futures import ThreadPoolExecutor
 
-    def on_emit(line):
-        o = tlc.parse_emit(line)
-        if "fail" in o:
-            fails.append(o["fail"])
-        elif "done" in o:
-            done[o["done"]] = o["steps"]
+    nb = max(1, min(batches, (len(traces) + 7) // 8))
+    parts = [traces[i::nb] for i in range(nb)]
+    index = [list(range(i, len(traces), nb)) for i in range(nb)]
 
-    res = tlc.run(module, cfg, workers=1, on_emit=on_emit, timeout=timeout, heap=heap,
-                  env={"TRACE_FILE": path})
-    os.remove(path)
-    if res.timed_out or res.errors or not res.finished or res.violated:
-        raise MachineryError(f"{module} trace validation failed to run: violated={res.violated} "
-                             f"{res.errors[:2]}\n" + "\n".join(res.tail[-30:]))
-    report.add("traces_validated_against_impl", len(done))
-    report.add("trace_steps_validated", sum(done.values()))
-    report.add("trace_states", res.distinct)
-    if len(done) != len(traces):
-        raise MachineryError(f"{module}: only {len(done)} of {len(traces)} traces were consumed")
-    for tid, stepno, clause in fails:
+    def one(bi):
+        part = parts[bi]
+        wd = tlc.fresh_workdir(f"{module}_{bi}")
+        if consts is not None:
+            with open(os.path.join(wd, consts[0] + ".tla"), "w") as fh:
+                fh.write(consts[1](part))
+        path = os.path.join(wd, "traces.json")
+        with open(path, "w") as fh:
+            json.dump(part, fh, separators=(",", ":"))
+        fails, done = [], {}
+
+        def on_emit(line):
+            o = tlc.parse_emit(line)
+            if "fail" in o:
+                fails.append(o["fail"])
+            elif "done" in o:
+                done[o["done"]] = o["steps"]
+
+        res = tlc.run(module, cfg, workers=1, on_emit=on_emit, timeout=timeout, heap=heap,
+                      env={"TRACE_FILE": path}, wd=wd)
+        return res, fails, done
+
+    with ThreadPoolExecutor(nb) as ex:
+        results = list(ex.map(one, range(nb)))
+    ndone = nsteps = nstates = 0
+    allfails = []
+    for bi, (res, fails, done) in enumerate(results):
+        if res.timed_out or res.errors or not res.finished or res.violated:
+            raise MachineryError(f"{module} trace validation failed to run (batch {bi}): "
+                                 f"violated={res.violated} {res.errors[:2]}\n" + "\n".join(res.tail[-30:]))
+        if len(done) != len(parts[bi]):
+            stuck = index[bi][len(done)] if len(done) < len(index[bi]) else -1
+            raise MachineryError(f"{module}: trace #{stuck} was not consumed (an event matched no "
+                                 f"enabled specification action); consumed {len(done)} of {len(parts[bi])} in batch {bi}")
+        ndone += len(done)
+        nsteps += sum(done.values())
+        nstates += res.distinct
+        allfails += [(index[bi][tid - 1] + 1, stepno, clause) for tid, stepno, clause in fails]
+    report.add("recorded_traces_validated", ndone)
+    report.add("trace_steps_validated", nsteps)
+    report.add("distinct_trace_states", nstates)
+    for tid, stepno, clause in allfails:
         owner = clause.split(".")[0]
         tr = traces[tid - 1]
+        if isinstance(tr, dict):
+            tr = tr["ev"]
         detail = {"trace": tid, "step": stepno, "clause": clause,
                   "event": (describe or (lambda e: e))(tr[stepno - 1]) if 0 < stepno <= len(tr) else None}
-        obj = {"kind": "trace", "trace": tr[:stepno]}
+        obj = {"kind": "trace", "trace": traces[tid - 1], "upto": stepno}
         own = owners or {report.prop}
         if owner in own:
             report.violation(clause, detail, obj)
@@ -192,5 +175,10 @@ def code_to_spec(report, module, cfg, traces, *, timeout=3000, heap="6g", extra_
         else:
             report.note(f"clause of {owner} failed here ({clause}); judged by that property's own check")
     if traces:
-        report.sample({"direction": "code->spec", "trace": traces[seed() % len(traces)][:6]}, cap=3)
-    return res
+        tr = traces[seed() % len(traces)]
+        if isinstance(tr, dict):
+            tr = dict(tr, ev=tr.get("ev", [])[:3])
+        else:
+            tr = tr[:3]
+        report.sample({"direction": "code->spec", "trace_prefix": tr}, cap=3)
+    return results
